@@ -147,6 +147,11 @@ std::vector<TecmpPayloadPtr> TECMP::Decoder::GetInterfacePayload(const uint8_t* 
 }
 TecmpPayloadPtr TECMP::Decoder::GetCanPayload(const uint8_t* payloadData, const std::size_t size)
 {
+    // Arbitration id and dlc must be present and the announced data bytes must fit
+    constexpr std::size_t canHeaderSize = sizeof(uint32_t) + sizeof(uint8_t);
+    if (size < canHeaderSize || size - canHeaderSize < payloadData[canHeaderSize - 1])
+        return {};
+
     CanPayload payload(payloadData, size);
     if (payload.isValid())
         return std::make_shared<Payload>(payload);
